@@ -948,6 +948,97 @@ def variable_usages_allowed(rng, sv, doc):
     return d, "String-variable-at-Boolean-directive-argument"
 
 
+def _has_var(v):
+    if v[0] == "var":
+        return True
+    if v[0] == "list":
+        return any(_has_var(x) for x in v[1])
+    if v[0] == "obj":
+        return any(_has_var(x) for _, x in v[1])
+    return False
+
+
+def _item_paths(sv, t, nlist=0, nobj=0):
+    """positions INSIDE a literal of type t that lie below at least one list literal (at most two list levels, one
+    object level): (wrap: value at the position -> whole literal, position type, position has default, #lists, #objects)"""
+    out = []
+    st = strip(t)
+    if st[0] == "list":
+        if nlist < 2:
+            it = st[1]
+            out.append((lambda v: ("list", [v]), it, False, nlist + 1, nobj))
+            for w2, t2, hd2, a, b in _item_paths(sv, it, nlist + 1, nobj):
+                out.append((lambda v, w2=w2: ("list", [w2(v)]), t2, hd2, a, b))
+    elif sv.kind(st[1]) == "input" and nobj < 1:
+        fields = sv.types[st[1]]["fields"]
+        for f in fields:
+            others = []
+            for g in fields:
+                if g is not f and g["type"][0] == "nonNull" and g.get("default") is None:
+                    lit = _good_literal(sv, g["type"])
+                    if lit is None:
+                        others = None
+                        break
+                    others.append((g["name"], lit))
+            if others is None:
+                continue
+
+            def wobj(v, f=f, others=others):
+                return ("obj", [(f["name"], v)] + list(others))
+            if nlist >= 1:
+                out.append((wobj, f["type"], f.get("default") is not None, nlist, nobj + 1))
+            for w2, t2, hd2, a, b in _item_paths(sv, f["type"], nlist, nobj + 1):
+                out.append((lambda v, w2=w2, wobj=wobj: wobj(w2(v)), t2, hd2, a, b))
+    return out
+
+
+def variable_in_list_literal(rng, sv, doc):
+    """5.8.5 INSIDE list literals (hunt C06/2): a fresh variable as an item of a list literal (depth 1 or 2, possibly in
+    a field of an object inside the list) whose type is too shallow / too deep for the item position, or nullable where
+    the item position is non-null"""
+    d = copy.deepcopy(doc)
+    p = Pos(sv, d)
+    sites = []    # (set value fn, position type, scope definition)
+    for s, par, df, _ in p.fields:
+        f = p.fielddef(s, par)
+        if not f:
+            continue
+        given = {a["name"]: a for a in s["args"]}
+        for ad in f.get("args") or []:
+            a = given.get(ad["name"])
+            if a is not None and _has_var(a["value"]):
+                continue
+            sites.append((s, ad, a, df))
+    cands = {}    # kind of mismatch -> [(site, wrap, variable type, #lists, #objects)]
+    for site in sites:
+        for wrap, pt, hd, nl, no in _item_paths(sv, site[1]["type"]):
+            opts = []
+            sp = strip(pt)
+            if pt[0] == "nonNull" and not hd:
+                opts.append((pt[1], "nullable-for-non-null"))
+            if sp[0] == "list":
+                opts.append((("named", gs.ty_base(sp)), "too-shallow"))
+            else:
+                opts.append((("list", sp), "too-deep"))
+            for vt, what in opts:
+                if not vo.var_allowed(vt, False, pt, hd):
+                    cands.setdefault((what, nl), []).append((site, wrap, vt, nl, no))
+    if not cands:
+        return None
+    # every kind of mismatch and both depths equally often (not: as often as the schemas offer them)
+    what, _ = key = rng.choice(sorted(cands))
+    (s, ad, a, df), wrap, vt, nl, no = rng.choice(cands[key])
+    val = wrap(("var", "zzv"))
+    if a is None:
+        s["args"].append({"name": ad["name"], "value": val})
+    else:
+        a["value"] = val
+    for o in _ops_reaching(d, df):
+        o["long"] = True
+        o["vars"].append({"name": "zzv", "type": vt, "default": None})
+    return d, "var-in-list:depth%d%s:%s" % (nl, ":object-field" if no else "", what)
+
+
 def _clear_base(vt, lt):
     return True
 
@@ -1245,6 +1336,7 @@ INJECTORS = [
     ("all_variables_used", "5.8.4", ["NoUnusedVariablesChecker"], all_variables_used),
     ("all_variable_usages_allowed", "5.8.5", ["VariablesInAllowedPositionChecker"], variable_usages_allowed),
     ("all_variable_usages_allowed", "5.8.5", ["VariablesInAllowedPositionChecker"], allowed_position_multi_op),
+    ("all_variable_usages_allowed", "5.8.5", ["VariablesInAllowedPositionChecker"], variable_in_list_literal),
     ("overlapping_fields_can_be_merged", "5.3.2", ["OverlappingFieldsCanBeMergedChecker"], overlapping_same_key_subfields),
     ("overlapping_fields_can_be_merged", "5.3.2", ["OverlappingFieldsCanBeMergedChecker"], overlapping_typename_vs_leaf),
     ("fields_on_correct_type", "5.3.1", ["FieldsOnCorrectTypeChecker"], stack_leak_unknown_field),
